@@ -170,8 +170,11 @@ def run_case(seed, dynamic=False, family=None):
             w = rng.randrange(W); tn = "w%d" % w
             if tn in held and rng.random() < 0.7:
                 t = held.pop(tn); r = rng.random()
-                if dynamic and not (family == "retry" and r >= 0.7 and rng.random() < 0.6):
-                    # the build function declares the whole tree (in the retry family a crashing run may die before it gets there)
+                will_retry = 0.7 <= r < 0.7 + p_invalid and o._run_times[t.trial_id] + 1 <= cfg["max_retries"]
+                if dynamic and not (family == "retry" and will_retry and rng.random() < 0.6):
+                    # the build function declares the whole tree. In the retry family a crashing run that will be retried may die
+                    # before it gets there; the last run of a trial always declares (uniform discovery: otherwise the grid cannot
+                    # know the combinations below a trial that never told it about them)
                     declare(t.hyperparameters, spec, [None] * len(spec), rng)
                 if r < 0.7: o.update_trial(t.trial_id, {"score": float(rng.randint(-3, 3))}); t.status = "COMPLETED"; oc = "ECompleted"
                 elif r < 0.7 + p_invalid: t.status = "INVALID"; oc = "EInvalid"
